@@ -143,7 +143,9 @@ def check_C03(fx, eng, rep, tier):
     m, sink = res['OptimisticLock']
     n = 0
     for it in sink.items:
-        if it['rule'].startswith(('C03.', 'C09.VAL', 'C09.FLOW')) or ('TryLock' in it['key'] and it['rule'].startswith(('C01.ADM', 'C01.ROWS'))):
+        # a validation that succeeds while the guard holds a shared grant relies on shared grants excluding exclusive ones:
+        # the lock-mode rows of this class (admission, upgrade, downgrade, release) are premises of C03
+        if it['rule'].startswith(('C03.', 'C09.VAL', 'C09.FLOW', 'C01.ADM', 'C01.ROWS', 'C01.REL', 'C01.STORE', 'C10.UPG', 'C10.DOWN')):
             n += 1
             getattr(rep, {'ok': 'ok', 'violated': 'violation', 'unsupported': 'unsupported'}[it['status']])(it['rule'], it['key'], it['loc'], it['detail'])
     for f in m.fns.values():
